@@ -53,7 +53,7 @@ func (p *pairInst) Body() {
 		return fmt.Errorf("PANIC:%v", err)
 	})
 	for i := range p.In {
-		p.In[i] = &Inst{S: s, C: Case{Op: Op{Text: p.Text, Vars: p.Vars[i]}, Plan: p.Plan, Yield: true}, Doc: p.Doc}
+		p.In[i] = &Inst{S: s, C: Case{Op: Op{Text: p.Text, Vars: deepCopy(p.Vars[i]).(map[string]any)}, Plan: p.Plan, Yield: true}, Doc: p.Doc}
 		p.In[i].Env = &Env{Plan: p.Plan, DefaultImpl: s.W.DefaultImpl, AltImpl: s.W.AltImpl, RogueImpl: s.W.RogueImpl, Yield: true, MapFields: s.mapFields}
 	}
 	s.cur = p.In[0].Env
@@ -61,7 +61,7 @@ func (p *pairInst) Body() {
 		in := p.In[i]
 		ctx := context.WithValue(context.Background(), envKey{}, in.Env)
 		ctx = graphql.StartOperationTrace(ctx)
-		oc, errs := ex.CreateOperationContext(ctx, &graphql.RawParams{Query: p.Text, Variables: p.Vars[i]})
+		oc, errs := ex.CreateOperationContext(ctx, &graphql.RawParams{Query: p.Text, Variables: in.C.Op.Vars})
 		if len(errs) > 0 {
 			for _, e := range errs {
 				in.GateErrs = append(in.GateErrs, e.Message)
